@@ -181,11 +181,19 @@ def explore(ctx):
                 exp = "1:ctx"
             tk = "%s:%s,%s:%s" % (b"K1".hex(), b"t1".hex(), b"K2".hex(), b"t2".hex())
             lines.append(scn.line("scn", "g%d" % rep, s, extra="nt=1 family=deadline-with-tag-extraction tagkeys=%s expect=%s" % (tk, exp)))
+        # calls with a timeout through a Connection's OWN client over real transports: the first attempt is throttled, the
+        # retry (after a command backoff longer than what was left of the timeout) meets a peer that takes 3 s to answer:
+        # every attempt carries the timeout, so the call returns its deadline error long before that
+        for rep in range({"quick": 2, "thorough": 12, "search": 3}[tier]):
+            T_, b, d1 = rng.choice([(100, 400, 20), (150, 300, 30), (80, 200, 10)])
+            lines.append("cc v%d timeout=%d backoff=%d cancelat=- attempts=%d:throttle,3000:ok maxret=%d" % (rep, T_, b, d1, d1 + b + T_ + 1500))
         k = 0
         for rep in range({"quick": 2, "thorough": 20, "search": 4}[tier]):
             for when in ("inflight", "afterwrite"):
                 for how in ("cancel", "deadline"):
                     lines.append("e2ec y%d when=%s how=%s" % (k, when, how)); k += 1
+            # many calls given up together while the peer is not reading: every handler still hears of it afterwards
+            lines.append("e2eb x%d n=%d" % (k, rng.choice([80, 100, 150]))); k += 1
     triples, tie = C.run_both(ctx, "TestVerifScn", lines, go_timeout=1500)
     if not ctx.get("replay"):
         # the serving-side families once more on a single P: a different, much coarser interleaving of the receive
